@@ -17,6 +17,50 @@ def key_classify(t):
     return ("classify", min(n, 9), h[:2], h[-2:], t[-1])
 
 
+def _arrow(t):
+    try:
+        return t.index("=>")
+    except ValueError:
+        return None
+
+
+def key_build(t):
+    # build <hex> e m v k => ok e m v k n mat tail : distinct (forced-option shape, reported fields, length class)
+    a = _arrow(t)
+    if a is None:
+        return None
+    n = 0 if t[1] == "-" else len(t[1]) // 2
+    res = t[a + 1:]
+    shape = "".join("f" if x != "-" else "a" for x in t[2:6])
+    if res and res[0] == "ok":
+        return (t[0], shape, tuple(res[1:5]), min(n, 3), n % 6)
+    return (t[0], shape, tuple(res[:2]), min(n, 3))
+
+
+def key_unit(t):
+    a = _arrow(t)
+    if a is None:
+        return None
+    if t[0] == "division":
+        d = t[1]
+        nz = sum(1 for i in range(0, len(d), 2) if d[i:i + 2] != "00") if d != "-" else 0
+        first = next((i // 2 for i in range(0, len(d), 2) if d[i:i + 2] != "00"), -1)
+        return ("division", len(t[2]) // 2, len(d) // 2, min(nz, 3), first, d[2 * first:2 * first + 2] if nz == 1 else "")
+    if t[0] == "genpoly":
+        return tuple(t[:3])
+    if t[0] == "masku":
+        return tuple(t[:4])
+    if t[0] == "pair":
+        return ("pair", t[2], t[4], t[5], t[6])
+    if t[0] == "select":
+        res = t[a + 1:]
+        return ("select", t[2], t[3], t[4], t[5] != "-", res[1] if len(res) > 1 else res[0], len(t[1]) % 5)
+    return key_build(t)
+
+
+COMMON_TRUST = ["hand model of the pipeline tied by the differential correspondence (sampled unless marked exhaustive)",
+                "ISO/IEC 18004 tables as transcribed in Spec/IsoTables.lean; my reading of the standard in Spec/"]
+
 PROPS = {
     "C05": dict(
         module="FastQr.Props.C05",
@@ -42,4 +86,72 @@ PROPS = {
              "byte, last byte, mode); trivial = repeats of such a tuple.",
         assumptions=["bytes are modelled as naturals < 256 (hypothesis IsBytes of the theorems)"],
     ),
+    "C01": dict(
+        module="FastQr.Props.C01", level="proof", key=key_build, partial=True,
+        missing=["composition C01_statement (stage lemmas c-g of DESIGN.md §4 C01) is stated, not yet proved; "
+                 "the reference decoder is run on every generated symbol instead"],
+        rule="cases: public QRBuilder; every (version, level) cell with forced/automatic mode, mask and version, lengths "
+             "{0,1,2,3, cap/2, cap-3..cap, first length of the version} and random, contents random / lowest / highest / pad "
+             "look-alike; thorough = every (version, level, mask in 8+auto, mode in 3+auto). distinct = distinct (forced-option "
+             "shape, reported level/mode/version/mask, length class); every tuple pins one configuration cell.",
+        trusted=COMMON_TRUST, assumptions=["Spec.Decode is the ISO reference decoding without error correction (exact agreement required)"]),
+    "C02": dict(
+        module="FastQr.Props.C02", level="proof", key=key_build, partial=True,
+        missing=["recovery corollary (floor(ec/2) errors) follows from zero syndromes by the BCH bound, which is cited, not proved in Lean"],
+        rule="cases: as C01; spec verdict = Table 9 block split of the read-out codewords, zero remainder bits, all syndromes "
+             "alpha^0..alpha^(ec-1) zero in every block. distinct as C01.",
+        trusted=COMMON_TRUST),
+    "C03": dict(
+        module="FastQr.Props.C03", level="proof", key=key_build,
+        rule="cases: every version x (level, mask) with payload shapes random / full / empty; spec verdict = every finder, "
+             "separator, timing, alignment, dark-module cell has the ISO value, side = 17+4v, backing array beyond size^2 untouched. "
+             "distinct = (forced shape, reported fields, length class).",
+        exhaustive_thorough=True, trusted=COMMON_TRUST + ["templateOk: evaluated by native_decide (Lean compiler trusted for this closed term)"]),
+    "C04": dict(
+        module="FastQr.Props.C04", level="proof", key=key_build,
+        rule="cases: exhaustive 4 levels x 8 masks x 40 versions with forced options + automatic selection of each option on "
+             "random payloads; spec verdict = both format copies = BCH(15,5) word of reported (level, mask), both version copies = "
+             "BCH(18,6) (v>=7), size, forced options honoured, default Q, automatic mode = classifier, encoded mode = reported.",
+        exhaustive_quick=True, exhaustive_thorough=True, trusted=COMMON_TRUST),
+    "C06": dict(
+        module="FastQr.Props.C06", level="proof", key=key_build, partial=True,
+        missing=["refinement theorem C06_bitstream (model encode = Spec.Bitstream.codewords for every payload) not yet closed; "
+                 "compared on every generated case instead"],
+        rule="cases: per (version, level): forced/auto modes, lengths leaving 0..6 characters of room (all residues mod 3 / mod 2, "
+             "0..12 spare bits), random; spec verdict = data codewords read from the symbol = ISO 7.4 encoding of the input.",
+        trusted=COMMON_TRUST),
+    "C07": dict(
+        module="FastQr.Props.C07", level="proof", key=key_unit,
+        rule="cases: real polynomials::division through the hook on every (generator, block length) pair in use: unit vectors "
+             "(quick: 10 positions x 5 values; thorough: every position, all 255 values for short blocks), zeros-heavy, "
+             "all-zero, all-FF, random; get_polynomial on all 160 (level, version) pairs. distinct = (generator degree, block "
+             "length, #nonzero class, first nonzero position, value for unit vectors).",
+        trusted=COMMON_TRUST),
+    "C08": dict(
+        module="FastQr.Props.C08", level="proof", key=key_unit,
+        rule="cases: real datamasking::mask on the real blank symbol, exhaustive 40 versions x 8 masks x 2 value fills; all 28 "
+             "mask pairs of forced-mask builds of one payload (quick 6 versions, thorough all 40 x 3). distinct = (op, version, masks, level).",
+        exhaustive_quick=True, exhaustive_thorough=True,
+        trusted=COMMON_TRUST + ["sweepOk: evaluated by native_decide (Lean compiler trusted for this closed term)"]),
+    "C10": dict(
+        module="FastQr.Props.C10", level="proof", key=key_build, partial=True,
+        missing=["(build inp o).traps = [] is proved stage-wise for the payload-independent stages and the terminator; the "
+                 "byte-level push_bits bounds and the composition are not yet closed"],
+        rule="cases: lengths 0..8000 (quick stride 37 + capacity boundaries, thorough every length x 4 contents), arbitrary "
+             "bytes with automatic mode, forced modes on their alphabets, random level/version/mask options; panics are "
+             "caught (debug-assertions + overflow-checks on). Malformed stream (buildx) only validates the model's traps.",
+        trusted=COMMON_TRUST, assumptions=["stack/heap exhaustion and allocator aborts are not modelled"]),
+    "C11": dict(
+        module="FastQr.Props.C11", level="proof", key=key_unit, partial=True,
+        missing=["ranking score = documented penalty (line = runs+windows, squares = blocks) is checked on every recorded "
+                 "candidate, the symbolic equivalence is not yet proved"],
+        rule="cases: builds with the selection recorder hook: 8 (mask, ranking score, candidate matrix) per build; spec verdict = "
+             "candidates are masks 0..7 of one placed matrix and the emitted mask's Spec.Penalty.total is minimal (forced mask "
+             "overrides). distinct = (level, mode, version, forced?, chosen mask, length class).",
+        trusted=COMMON_TRUST),
+    "C15": dict(
+        module="FastQr.Props.C15", level="proof", key=key_build,
+        rule="cases: as C03; spec verdict = module_type() of every module = ISO region of the coordinate; #Data = 8*codewords + remainder.",
+        exhaustive_thorough=True,
+        trusted=COMMON_TRUST + ["templateOk / scanOk: evaluated by native_decide (Lean compiler trusted for these closed terms)"]),
 }
